@@ -28,7 +28,7 @@ var (
 	provPool  = []string{"A0", "A1", "A2"}
 	ownerPool = []string{"A3", "A4"}
 	consPool  = []string{"A5", "A6", "A7"}
-	svcPool   = []string{"s1", "s2"}
+	svcPool   = []string{"s1", "s1x"} // prefix-related on purpose (BUILDING.md)
 	discounts = []string{"0.5", "0.9", "0.1", "0.25", "0.333333333333333333", "0.999999999999999999", "0.000000000000000001", "0.75"}
 	fractions = []string{"0", "0.05", "0.1", "0.5", "0.333333333333333333", "0.999999999999999999", "0.001", "0.01", "0.000000000000000001"}
 )
@@ -361,7 +361,7 @@ func (r *R) Gen(ctx sdk.Context, g *hx.Rng) string {
 			if !dup || g.Chance(1, 6) {
 				break
 			}
-			name = pick(g, []string{"s1", "s2", "s3"})
+			name = pick(g, []string{"s1", "s1x", "s3"})
 		}
 		if g.Chance(1, 10) {
 			name = pick(g, []string{"1bad", "-", "s_3-x", "s3"})
